@@ -27,7 +27,7 @@ class Cfg:
         self.calls = [tuple(c) for c in calls]
         self.begin_fault = list(begin_fault)
         self.item_fault = [tuple(x) for x in item_fault]
-        # search-only scenario beyond the model's caller program: `until_all_ready()` is also called in the middle of a call
+        # `until_all_ready()` is also called in the middle of every call, right after its first results (model: Cfg.readyMid)
         self.ready_mid = ready_mid
         # some input elements are `None` (results too): the emitted chunk order can then not be read off the results, so the
         # final `out:` field is left out of the comparison with the model (every step is still compared)
@@ -68,7 +68,7 @@ class Cfg:
         q = None if self.quota is None else math.ceil(self.quota)
         return (f"cfg {self.n_workers} {o(wc)} {o(rc)} {1 if self.factory else 0} {o(q)} "
                 f"{1 if self.wait_ready else 0} calls: {calls} bf: {' '.join(map(str, self.begin_fault))} "
-                f"if: {' '.join(f'{a}:{b}' for a, b in self.item_fault)}").replace("  ", " ")
+                f"if: {' '.join(f'{a}:{b}' for a, b in self.item_fault)}" + (" rm:1" if self.ready_mid else "")).replace("  ", " ")
 
     def to_json(self):
         return dict(n_workers=self.n_workers, work_cap=self.work_cap, res_cap=self.res_cap, factory=self.factory,
